@@ -193,8 +193,11 @@ package transport
 //@ trusted (*sseConnection).flush()
 //@ trusted (*sseConnection).keepAlive(w)
 //@ trusted writeJsonWithSSE(w, response)
+// (NewTicker panics for a non-positive interval only)
 //@ trusted time.NewTicker(d) (t)
+//@   requires d > 0
 //@   ensures t != nil
+//@   nopanic
 //@   modifies nothing
 //@ trusted (*sync.Mutex).Lock()
 //@   nopanic
@@ -581,7 +584,9 @@ package transport
 // run(): the close watcher waits on the context derived for this loop (cancelled when the loop ends, however it
 // ends), subscribe is only reached from a start message, stop cancels only the addressed operation.
 //@ trusted (*wsConnection).closeOnCancelStub()
-//@ func (*wsConnection).run [C11,C10]
+// (D31: the three tickers only exist for a positive interval - time.NewTicker panics otherwise, here with c.mu held)
+//@ func (*wsConnection).run [C11,C10,C05]
+//@   replay wsNegativeInterval.go.tmpl for NewTicker
 //@   stable wsConnection.keepAliveTicker wsConnection.pongOnlyTicker wsConnection.pingPongTicker wsConnection.conn
 //@   safe
 //@   requires c != nil && c.exec != nil && c.active != nil && c.conn != nil
